@@ -96,20 +96,27 @@ def calculateNewCapacity (minCapacity oldCapacity : Nat) : Nat :=
 structure Grown (α : Type) where
   arrays : Arrays α
   hdr : Hdr
-  /-- the new backing array holds the *same element objects* as the old window (`array.slice` is shallow,
-      prelude.js:494): only observable when elements are struct/array objects -/
+  /-- does the new backing array hold the *same element objects* as the old window? `array.slice` is shallow, but
+      since the repair of C07-growslice-shares-elements the kept elements of array/struct kind are `$clone`d
+      (prelude.js `$growSlice`, the loop right after `array.slice`), so this is always `false`. -/
   reusedElemObjects : Bool
 
-/-- prelude.js:484-515 `$growSlice(slice, minCapacity)`; a new slice object is always returned. -/
-def growSlice {α} (k : Kind) (zero : α) (A : Arrays α) (s : Hdr) (minCapacity : Nat) : Grown α :=
+/-- `$growSlice` BEFORE the repair shared the element objects of a non-empty reallocated window of array/struct
+    elements (kept for the "repaired defects" section of GV.Props.C07). -/
+def reusedBeforeRepair (k : Kind) (s : Hdr) (minCapacity : Nat) : Bool :=
+  decide (minCapacity > s.cap) && k == .spine && decide (s.len > 0)
+
+/-- prelude.js `$growSlice(slice, minCapacity)`; a new slice object is always returned. -/
+def growSlice {α} (_k : Kind) (zero : α) (A : Arrays α) (s : Hdr) (minCapacity : Nat) : Grown α :=
   if minCapacity > s.cap then
     let capacity := calculateNewCapacity minCapacity s.cap
     let old := ((getArr A s.arr).drop s.off).take s.len
-    -- Array: `array.slice(offset, offset+length)`, `length = capacity`, zero fill; typed: `new ctor(capacity)` + `set`
+    -- Array: `array.slice(offset, offset+length)`, kept array/struct elements `$clone`d, `length = capacity`, zero fill;
+    -- typed: `new ctor(capacity)` + `set`
     let newArray := old ++ List.replicate (capacity - s.len) zero
     { arrays := A ++ [newArray],
       hdr := { arr := A.length, off := 0, len := s.len, cap := capacity, isNil := false },
-      reusedElemObjects := k == .spine && decide (s.len > 0) }
+      reusedElemObjects := false }
   else
     { arrays := A, hdr := { s with isNil := false }, reusedElemObjects := false }
 
